@@ -544,3 +544,106 @@ def unsigned_field_minus_param(facts, fams=("req", "kll", "quantiles")):
     if not sites:
         out.append(ob("unsigned.sub-clamped", "anchor", "", "unrecognised", "no unsigned field - parameter subtraction found", ""))
     return out
+
+
+def req_exact_band(facts):
+    """REQ rank bounds collapse to the estimate (`exact`) only for ranks inside the part of level 0 that is never compacted: the
+    first INIT_NUM_SECTIONS sections of k items, i.e. k * 3 items.  The threshold that is compared with n in is_exact_rank - read
+    through named locals and single-return helpers, named constants by value - must be that product: a larger one (the nominal
+    capacity 2 * 3 * k) declares ranks exact whose items have already been through a compaction."""
+    from astu import single_assignment_locals
+    import astu
+    fns = functions_by(facts, ["req"])
+    out = []
+    helpers = {}
+    for f in fns.values():
+        if f.get("rect") == "datasketches::req_sketch" and f.get("body") is not None:
+            st = stmts_of(f["body"])
+            if len(st) == 1 and st[0].get("k") == "Return" and st[0].get("e") is not None:
+                helpers[f["pat"]] = f
+    for pat, fn in sorted(fns.items()):
+        if fn.get("rect") != "datasketches::req_sketch" or fn["name"] != "is_exact_rank" or fn.get("body") is None or len(fn.get("params") or []) != 5:
+            continue
+        sa = single_assignment_locals(fn)
+        kd, nd = fn["params"][0]["d"], fn["params"][3]["d"]
+
+        def resolve(e, depth=0):
+            e0 = strip_all(e)
+            if depth > 6 or not isinstance(e0, dict):
+                return e0
+            if e0.get("k") == "Ref" and e0.get("d") in sa:
+                return resolve(sa[e0["d"]], depth + 1)
+            if e0.get("k") == "Call" and e0.get("cpat") in helpers and len(e0.get("args", [])) == len(helpers[e0["cpat"]].get("params") or []):
+                h = helpers[e0["cpat"]]
+                m = {p["d"]: a for p, a in zip(h["params"], e0["args"])}
+                body = stmts_of(h["body"])[0]["e"]
+
+                def sub(n):
+                    if isinstance(n, list):
+                        return [sub(x) for x in n]
+                    if not isinstance(n, dict):
+                        return n
+                    if n.get("k") == "Ref" and n.get("d") in m:
+                        return m[n["d"]]
+                    return {k: sub(v) for k, v in n.items()}
+                return resolve(sub(body), depth + 1)
+            if e0.get("k") == "Bin":
+                return dict(e0, l=resolve(e0["l"], depth + 1), r=resolve(e0["r"], depth + 1))
+            return e0
+        cmps = []
+        walk(fn["body"], lambda n: cmps.append(n) if n.get("k") == "Bin" and n.get("op") in ("<=", ">=", "<", ">") and any(strip_all(n[s_]).get("k") == "Ref" and strip_all(n[s_]).get("d") == nd for s_ in ("l", "r")) else None)
+        key = "req_sketch::is_exact_rank:exact-band"
+        if not cmps:
+            out.append(ob("req.exact-band", key, fn["pat"], "unrecognised", "no comparison of n with the exact-rank capacity found", fn["qname"]))
+            continue
+        c = cmps[0]
+        other = c["r"] if strip_all(c["l"]).get("d") == nd else c["l"]
+        old = astu._VALUES[0]
+        astu._VALUES[0] = True
+        try:
+            penv = {kd: {"k": "Ref", "n": "k", "d": None, "dk": "synthetic"}}
+            t = C(txt(resolve(other), penv).replace(" ", ""))
+        finally:
+            astu._VALUES[0] = old
+        ok = t in (C("(k*3)"), C("(3*k)"))
+        out.append(ob("req.exact-band", key, c.get("loc", fn["pat"]), "discharged" if ok else "violated",
+                      "ranks are declared exact for n <= k * INIT_NUM_SECTIONS (= 3k, the never-compacted part of level 0)" if ok else
+                      "ranks are declared exact up to `%s` items instead of k * INIT_NUM_SECTIONS = 3k (the part of level 0 that is never compacted): lower and upper bound collapse onto an estimate whose items have already been through a compaction, so the published bounds miss the true rank" % t, fn["qname"]))
+    return out
+
+
+def sorted_run_is_halved_run(facts):
+    """KLL compaction sorts level 0 only when it is about to halve it: the range handed to std::sort must be the very run handed
+    to randomly_halve_up / randomly_halve_down in the same function (`items + B .. items + B + L` and `(items, B, L)`): halving a run
+    whose last (or first) slot was left out of the sort promotes an out-of-order item into a level that every query assumes sorted."""
+    fns = functions_by(facts, ["kll"])
+    out = []
+    idx = 0
+    for pat, fn in sorted(fns.items()):
+        if fn.get("body") is None:
+            continue
+        sorts, halves = [], []
+        walk(fn["body"], lambda n: sorts.append(n) if n.get("k") == "Call" and n.get("cname") == "sort" and len(n.get("args", [])) >= 2 else None)
+        walk(fn["body"], lambda n: halves.append(n) if n.get("k") == "Call" and n.get("cname") in ("randomly_halve_up", "randomly_halve_down") and len(n.get("args", [])) == 3 else None)
+        if not sorts or not halves:
+            continue
+        for sc in sorts:
+            a, b = strip_all(sc["args"][0]), strip_all(sc["args"][1])
+            key = "%s:sorted-run#%d" % (short(fn.get("patq") or fn["name"]), idx)
+            idx += 1
+            if not (a.get("k") == "Bin" and a.get("op") == "+"):
+                out.append(ob("kll.sorted-run", key, sc.get("loc", fn["pat"]), "unrecognised", "sort range start `%s` is not `base + begin`" % txt(a), fn["qname"]))
+                continue
+            base, beg = txt(a["l"]), C(txt(a["r"]).replace(" ", ""))
+            end = C(txt(b).replace(" ", ""))
+            bad = []
+            for h in halves:
+                hb, hbeg, hlen = txt(h["args"][0]), C(txt(h["args"][1]).replace(" ", "")), txt(h["args"][2]).replace(" ", "")
+                want_end = [C("((%s+%s)+%s)" % (base, hbeg, hlen)), C("(%s+(%s+%s))" % (base, hbeg, hlen))]
+                if hb != base or hbeg != beg or end not in want_end:
+                    bad.append("sorted [%s, %s) but halved %s(%s, %s, %s)" % (txt(a), txt(b), h.get("cname"), hb, txt(h["args"][1]), hlen))
+            if bad:
+                out.append(ob("kll.sorted-run", key, sc.get("loc", fn["pat"]), "violated", "%s: the run that is halved is not the run that was sorted - an item outside the sorted range is promoted into the level above, which every rank query assumes sorted" % bad[0], fn["qname"]))
+            else:
+                out.append(ob("kll.sorted-run", key, sc.get("loc", fn["pat"]), "discharged", "the sorted range is exactly the run handed to the %d halving call(s)" % len(halves), fn["qname"]))
+    return out
